@@ -302,7 +302,7 @@ func TestVerif_C03_h2cut(t *testing.T) {
 	reached := map[string]int{}
 	failures := 0
 	tmpDir := t.TempDir()
-	rstSeq, goSeq, overSeq, preSeq := 0, 0, 0, 0
+	rstSeq, goSeq, overSeq, preRst, preGo := 0, 0, 0, 0, 0
 	perName := map[string]int{}
 	for i := 0; i < n && failures < 12; i++ {
 		body := verifh.RandBytes(r, 1+r.Intn(300), "abcdefghijklmnopqrstuvwxyz")
@@ -375,14 +375,14 @@ func TestVerif_C03_h2cut(t *testing.T) {
 			sc.name, sc.ending, sc.code = "rst-noerror-after-end-stream", "end-stream-then-rst", 0
 		case 14: // the stream is reset before any response frame: REFUSED_STREAM and PROTOCOL_ERROR are replayed
 			sc.ending, sc.noHead, sc.complete, sc.retryOK = "rst", true, false, true
-			sc.code = []uint32{7, 1, 0, 8, 2, 11, 5}[preSeq%7]
-			preSeq++
+			sc.code = []uint32{7, 1, 0, 8, 2, 11, 5}[preRst%7]
+			preRst++
 			sc.name = "rst-before-headers-code-" + strconv.Itoa(int(sc.code))
 		case 15: // GOAWAY before any response frame: a stream above last-stream-id is replayed unless the code is an error
 			sc.ending, sc.noHead, sc.complete, sc.retryOK = "goaway", true, false, true
-			sc.code = []uint32{0, 2, 0, 11}[preSeq%4]
-			sc.lastAt = (preSeq/4)%2 == 1
-			preSeq++
+			sc.code = []uint32{0, 2, 0, 11}[preGo%4]
+			sc.lastAt = (preGo/4)%2 == 1
+			preGo++
 			sc.name = "goaway-before-headers-code-" + strconv.Itoa(int(sc.code)) + map[bool]string{true: "-last-at", false: "-last-below"}[sc.lastAt]
 		case 16: // END_STREAM carried by a trailers HEADERS frame: complete, or before the declared length
 			sc.trailers = true
